@@ -1,5 +1,6 @@
 //! Runtime-monitoring harness for mdsteele/rust-msi (see /verif/DESIGN.md).
 pub mod absgen;
+pub mod allocmon;
 pub mod cpora;
 pub mod engine;
 pub mod fmt_codec;
